@@ -49,6 +49,33 @@ package keeper
 //@   ensures result.Certificate == decode(types.Certificate, val)
 //@   ensures forall id: types.CertID :: key == certKeyOf(id) && len(addrBytes(id.Owner)) == 20 && id.Serial >= 0 ==> result.Serial == bigStr(id.Serial)
 
+//@ func (keeper).unmarshalIterator
+//@   nopanic
+//@   requires exists id: types.CertID :: key == certKeyOf(id) && len(addrBytes(id.Owner)) == 20 && id.Serial >= 0
+//@   ensures result1 == nil ==> result0.Certificate == decode(types.Certificate, val)
+//@   ensures result1 == nil ==> (forall id: types.CertID :: key == certKeyOf(id) && len(addrBytes(id.Owner)) == 20 && id.Serial >= 0 ==> result0.Serial == bigStr(id.Serial))
+
+// listing callbacks of the Certificates query: a record is reported as a hit exactly when it matches the
+// state filter (also when it is not accumulated - the paginator counts hits), and it is appended exactly
+// when it is a hit and the paginator asks for accumulation
+//@ func (querier).Certificates$2
+//@   nopanic
+//@   requires exists id: types.CertID :: key == certKeyOf(id) && len(addrBytes(id.Owner)) == 20 && id.Serial >= 0
+//@   modifies certificates, certificates[*]
+//@   ensures [hit] result1 == nil ==> (result0 <==> (state == types.CertificateStateInvalid || decode(types.Certificate, value).State == state))
+//@   ensures [acc] result1 == nil && result0 && accumulate ==> len(certificates) == old(len(certificates)) + 1
+//@                && certificates[old(len(certificates))].Certificate == decode(types.Certificate, value)
+//@   ensures [noacc] !(result1 == nil && result0 && accumulate) ==> certificates == old(certificates)
+//@ func (querier).Certificates$1
+//@   nopanic
+//@   requires len(addrBytes(owner)) == 20
+//@   requires exists id: types.CertID :: certPrefixOf(owner) + key == certKeyOf(id) && len(addrBytes(id.Owner)) == 20 && id.Serial >= 0
+//@   modifies certificates, certificates[*]
+//@   ensures [hit] result1 == nil ==> (result0 <==> (state == types.CertificateStateInvalid || decode(types.Certificate, value).State == state))
+//@   ensures [acc] result1 == nil && result0 && accumulate ==> len(certificates) == old(len(certificates)) + 1
+//@                && certificates[old(len(certificates))].Certificate == decode(types.Certificate, value)
+//@   ensures [noacc] !(result1 == nil && result0 && accumulate) ==> certificates == old(certificates)
+
 //@ func filterCertByState
 //@   ensures result <==> (state == types.CertificateStateInvalid || cert == state)
 
@@ -92,7 +119,7 @@ package keeper
 //@        result1 && result0.Certificate == decode(types.Certificate, KVval[k.skey][certKeyOf(id)]) && result0.Serial == bigStr(id.Serial)
 //@   ensures !old(KVhas)[k.skey][certKeyOf(id)] ==> !result1
 
-//@ property C17 := certificateKey#*, certificatePrefix#*, certificateSerialFromKey#*, (keeper).mustUnmarshal#*, filterCertByState#*,
+//@ property C17 := (keeper).unmarshalIterator#*, (querier).Certificates$1#*, (querier).Certificates$2#*, certificateKey#*, certificatePrefix#*, certificateSerialFromKey#*, (keeper).mustUnmarshal#*, filterCertByState#*,
 //@                 (keeper).CreateCertificate#*, (keeper).RevokeCertificate#*, (keeper).GetCertificateByID#*, lemma:certPrefixExact
 
 //@ property C06 := certificateKey#*, certificatePrefix#*, lemma:certPrefixExact
